@@ -163,7 +163,7 @@ def _own_nodes(fnode):
 
 
 class Env:
-    __slots__ = ("vars", "globs", "parent", "nonlocals", "globals_decl", "yields", "klass", "selfobj", "is_func")
+    __slots__ = ("vars", "globs", "parent", "nonlocals", "globals_decl", "yields", "klass", "selfobj", "is_func", "mangle")
 
     def __init__(self, globs, parent=None):
         self.vars = {}
@@ -175,6 +175,7 @@ class Env:
         self.klass = None
         self.selfobj = None
         self.is_func = False
+        self.mangle = None
 
     def lookup(self, name):
         e = self
@@ -201,6 +202,16 @@ class Env:
             self.globs[name] = v
             return
         self.vars[name] = v
+
+    def mangled(self, name):
+        """private-name mangling inside class bodies: __x -> _Class__x"""
+        if name.startswith("__") and not name.endswith("__"):
+            e = self
+            while e is not None:
+                if e.mangle:
+                    return "_" + e.mangle.lstrip("_") + name
+                e = e.parent
+        return name
 
     def find_class(self):
         e = self
@@ -774,8 +785,11 @@ class Interp:
         if getattr(f, "__name__", "") in ("__setattr__", "__delattr__", "__getattribute__", "__init__", "__new__", "__init_subclass__", "__eq__", "__ne__", "__repr__") \
                 and not isinstance(recv, (str, bytes, bytearray, dict, set, frozenset)) and recv is not None:
             return self.call_native(f, args, kwargs)
+        import contextvars as _cv
         import io as _io
 
+        if isinstance(recv, (_cv.ContextVar, _cv.Context)):
+            return f(*args, **kwargs)  # storage only: the payload is never inspected
         if isinstance(recv, _io.IOBase) and all(isinstance(a, (int, SInt, SBool)) or not is_sym(a) for a in args):
             # C-level file objects take ints through __index__ (which forks the value)
             return self.call_native(f, args, kwargs)
@@ -1065,6 +1079,9 @@ class Interp:
             if args:
                 env.selfobj = args[0]
             env.is_func = True
+            qn = getattr(fobj, "__qualname__", "").replace(".<locals>", "").split(".")
+            if len(qn) >= 2:
+                env.mangle = qn[-2]
         else:
             self.bind_closure_args(a, env, parent_env, args, kwargs)
         self.depth += 1
@@ -1220,7 +1237,7 @@ class Interp:
         if isinstance(t, ast.Name):
             env.store(t.id, v)
         elif isinstance(t, ast.Attribute):
-            self.setattr(self.eval(t.value, env), t.attr, v)
+            self.setattr(self.eval(t.value, env), env.mangled(t.attr), v)
         elif isinstance(t, ast.Subscript):
             obj = self.eval(t.value, env)
             self.setitem(obj, self.eval(t.slice, env), v)
@@ -1441,7 +1458,7 @@ class Interp:
 
     def e_Attribute(self, e, env):
         obj = self.eval(e.value, env)
-        return self.getattr(obj, e.attr)
+        return self.getattr(obj, env.mangled(e.attr))
 
     def getattr(self, obj, name):
         if is_sym(obj) or isinstance(obj, (type, types.ModuleType, SymDict, SymSet, Closure)) or self.native_mode:
@@ -1685,7 +1702,7 @@ class Interp:
                 kwargs[k.arg] = self.eval(k.value, env)
         if isinstance(e.func, ast.Attribute):
             recv = self.eval(e.func.value, env)
-            name = e.func.attr
+            name = env.mangled(e.func.attr)
             if isinstance(recv, re.Pattern) and name in rx.METHODS and (has_sym(args) or has_sym(tuple(kwargs.values()))):
                 return self.pattern_call(recv, name, args, kwargs)
             if isinstance(recv, (str, bytes, bytearray)) and (has_sym(args) or has_sym(tuple(kwargs.values()))):
